@@ -29,13 +29,8 @@ class RichMrgnEditor:
         loc_by_id = {loc.index: loc for loc in new_locations if loc.index is not None}
         id_by_loc = {loc: loc.index for loc in new_locations if loc.index is not None}
         for i, loc in enumerate(unique_locations_to_add):
-            if not allocable_indices:
-                self.log.error(
-                    f"No more allocable indices left.  Have we run out of locations?  "
-                    f"{i + 1} remaining locations we cannot allocate."
-                )
-                break
             if loc.index is not None:
+                self._throw_if_index_is_out_of_range(loc.index)
                 if not location_lookup.get_location_by_id(loc.index):
                     new_loc = self._build_new_location_with_index(loc, loc.index)
                     new_locations.append(new_loc)
@@ -53,6 +48,13 @@ class RichMrgnEditor:
                         f"Attempted replacement: {loc}"
                     )
             else:
+                # only a location that needs a new index can run out of indices
+                if not allocable_indices:
+                    self.log.error(
+                        f"No more allocable indices left.  Have we run out of locations?  "
+                        f"Cannot allocate location number {i + 1}."
+                    )
+                    continue
                 new_loc = self._build_new_location_with_index(
                     loc, allocable_indices.pop()
                 )
@@ -83,6 +85,15 @@ class RichMrgnEditor:
             )
         # TODO: fix this, as tests can cause this to fail since order is not deterministic!
         return set(locations)
+
+    def _throw_if_index_is_out_of_range(self, location_index: int) -> None:
+        if not 1 <= location_index <= MAX_LOCATIONS:
+            msg = (
+                f"Location index {location_index} is outside the valid range "
+                f"[1, {MAX_LOCATIONS}] and cannot be stored in the MRGN."
+            )
+            self.log.error(msg)
+            raise ValueError(msg)
 
     @classmethod
     def _generate_allocable_location_indices(
